@@ -540,6 +540,7 @@ class FnTr(object):
                     refuse(s, "name %s is first bound inside a loop" % n)
             if not names:
                 refuse(s, "loop without effect")
+            names = [n for n in env if n in names]          # canonical order
             tup = "(%s)" % ", ".join(v(n) for n in names) if len(names) != 1 else v(names[0])
             pat = "'%s" % tup if len(names) > 1 else tup
             env2 = dict(env)
@@ -565,6 +566,7 @@ class FnTr(object):
                     names.append(n)
                 elif n in later or ctx.get("in_loop"):
                     refuse(s, "name %s is first bound inside an if and may be used afterwards" % n)
+            names = [n for n in env if n in names]          # canonical order
             tup = "(%s)" % ", ".join(v(n) for n in names) if len(names) != 1 else v(names[0])
             escs = []
 
@@ -592,6 +594,7 @@ class FnTr(object):
             for n in names:
                 if n not in env:
                     refuse(s, "name %s is first bound inside a loop" % n)
+            names = [n for n in env if n in names]          # canonical order: order of first binding in the function
             tup = "(%s)" % ", ".join(v(n) for n in names) if len(names) != 1 else v(names[0])
             pat = "'%s" % tup if len(names) > 1 else tup
             if isinstance(s.test, ast.Constant) and s.test.value is True:
@@ -981,7 +984,7 @@ class SpeaTr(object):
                 refuse(s, "break / continue / return inside a for")
             it, bind, tenv = self.iterable(s.iter, s.target, env)
             names = self.assigned(s.body)
-            state = [n for n in names if n in env]
+            state = [n for n in env if n in names]          # canonical order: order of first binding in the function
             for n in names:
                 if n not in env and n in self.reads_after(s.body, rest):
                     refuse(s, "name %s is first bound inside a loop and used afterwards" % n)
@@ -1002,6 +1005,7 @@ class SpeaTr(object):
             for n in names:
                 if n not in env:
                     refuse(s, "name %s is first bound inside an if" % n)
+            names = [n for n in env if n in names]          # canonical order
             if not names:
                 return go()
             a = self.block(s.body, env, lambda e2: tup(names))
